@@ -32,29 +32,43 @@ Proof.
     + apply Injective_map_NoDup; [exact CLock_inj | exact H].
 Qed.
 
-Lemma lookup_ctx_nodup : forall mc l m,
-  nodupb mc = true -> forallb (fun x : nat * list nat => nodupb (mc ++ snd x)) l = true ->
-  NoDup (mc ++ lookup_ctx l m).
+Lemma ctx_eqb_eq : forall a b, ctx_eqb a b = true -> a = b.
 Proof.
-  intros mc l m Hm. induction l as [|[m' c] r IH]; simpl; intro H.
-  - rewrite app_nil_r. apply nodupb_NoDup. exact Hm.
-  - apply andb_true_iff in H. destruct H as [H1 H2].
-    destruct (Nat.eqb m m'); [apply nodupb_NoDup; exact H1 | apply IH; exact H2].
+  intros [x|] [y|] H; simpl in H; try discriminate; [|reflexivity].
+  apply Nat.eqb_eq in H. subst. reflexivity.
+Qed.
+
+Lemma ctx_eqb_refl : forall a, ctx_eqb a a = true.
+Proof. intros [x|]; simpl; [apply Nat.eqb_refl | reflexivity]. Qed.
+
+Lemma ctx_nodupb_NoDup : forall l, ctx_nodupb l = true -> NoDup l.
+Proof.
+  induction l as [|x r IH]; simpl; intro H.
+  - constructor.
+  - apply andb_true_iff in H. destruct H as [H1 H2]. constructor.
+    + intro Hin. apply negb_true_iff in H1.
+      assert (existsb (ctx_eqb x) r = true) as E.
+      { apply existsb_exists. exists x. split; [exact Hin | apply ctx_eqb_refl]. }
+      congruence.
+    + apply IH. exact H2.
 Qed.
 
 Section CtxLists.
+  Context {MS : Type}.
+  Variable reg : MS -> nat -> option (list nat).
   Variable cfg : lcfg.
   Hypothesis WF : wf_cfg cfg = true.
 
   Definition L0 : nat := hd 0 (cfg_machine cfg).
 
-  Lemma wf_parts : cfg_machine cfg <> [] /\ nodupb (cfg_machine cfg) = true /\
-    forallb (fun x : nat * list nat => nodupb (cfg_machine cfg ++ snd x)) (cfg_models cfg) = true.
+  (* a context list the protocol can work with: first machine context first, ident inside, no repetition *)
+  Definition good (cs : list ctx) : Prop :=
+    (exists tl, cs = CLock L0 :: tl /\ tl <> []) /\ NoDup cs /\ In CIdent cs.
+
+  Lemma wf_parts : cfg_machine cfg <> [] /\ nodupb (cfg_machine cfg) = true.
   Proof.
-    unfold wf_cfg in WF. apply andb_true_iff in WF. destruct WF as [H12 H3].
-    apply andb_true_iff in H12. destruct H12 as [H1 H2].
-    split; [|split; assumption].
-    intro E. rewrite E in H1. discriminate.
+    unfold wf_cfg in WF. apply andb_true_iff in WF. destruct WF as [H1 H2].
+    split; [|assumption]. intro E. rewrite E in H1. discriminate.
   Qed.
 
   Lemma mctx_head : exists tl, mctx cfg = CLock L0 :: tl /\ tl <> [].
@@ -65,41 +79,51 @@ Section CtxLists.
     intro E. apply app_eq_nil in E. destruct E as [_ E]. discriminate.
   Qed.
 
-  Lemma ctxs_head : forall c, exists tl, ctxs_of cfg c = CLock L0 :: tl /\ tl <> [].
-  Proof.
-    intro c. destruct mctx_head as [tl [E Hne]]. unfold ctxs_of.
-    destruct (c_kind c) as [m|].
-    - destruct (cfg_hier cfg).
-      + exists tl. split; assumption.
-      + rewrite E. simpl. exists (tl ++ map CLock (cfg_model cfg m)). split; [reflexivity|].
-        intro E2. apply app_eq_nil in E2. destruct E2 as [E2 _]. congruence.
-    - exists tl. split; assumption.
-  Qed.
-
   Lemma mctx_nodup : NoDup (mctx cfg).
   Proof.
-    destruct wf_parts as [_ [H _]].
+    destruct wf_parts as [_ H].
     pose proof (nodup_ctxs (cfg_machine cfg) [] ) as P. simpl in P. rewrite !app_nil_r in P.
     apply P. apply nodupb_NoDup. exact H.
   Qed.
 
-  Lemma ctxs_nodup : forall c, NoDup (ctxs_of cfg c).
+  Lemma ctxs_head : forall ms c, ctxs_of reg cfg ms c <> [] ->
+    exists tl, ctxs_of reg cfg ms c = CLock L0 :: tl /\ tl <> [].
   Proof.
-    intro c. destruct wf_parts as [_ [H2 H3]]. unfold ctxs_of.
-    destruct (c_kind c) as [m|]; [destruct (cfg_hier cfg)|]; try apply mctx_nodup.
-    unfold mctx. apply nodup_ctxs. unfold cfg_model. apply lookup_ctx_nodup; assumption.
+    intros ms c Hne. destruct mctx_head as [tl [E Hn]]. unfold ctxs_of in *.
+    destruct (c_kind c) as [m|].
+    - destruct (cfg_hier cfg).
+      + exists tl. split; assumption.
+      + destruct (reg ms m) as [mc|]; [|congruence].
+        rewrite E. simpl. exists (tl ++ map CLock mc). split; [reflexivity|].
+        intro E2. apply app_eq_nil in E2. destruct E2 as [E2 _]. congruence.
+    - exists tl. split; assumption.
   Qed.
 
-  Lemma ctxs_has_ident : forall c, In CIdent (ctxs_of cfg c).
+  Lemma ctxs_has_ident : forall ms c, ctxs_of reg cfg ms c <> [] -> In CIdent (ctxs_of reg cfg ms c).
   Proof.
-    intro c. unfold ctxs_of, mctx.
-    destruct (c_kind c) as [m|]; [destruct (cfg_hier cfg)|]; repeat (apply in_or_app; simpl; auto).
+    intros ms c Hne. unfold ctxs_of, mctx in *.
+    destruct (c_kind c) as [m|]; [destruct (cfg_hier cfg); [|destruct (reg ms m); [|congruence]]|];
+      repeat (apply in_or_app; simpl; auto).
     left. apply in_or_app. simpl. auto.
   Qed.
 
-  (* for the flat locked class the code enters exactly what the property demands *)
-  Lemma ctxs_of_flat : cfg_hier cfg = false -> forall c, ctxs_of cfg c = ctxs_spec cfg c.
-  Proof. intros H c. unfold ctxs_of, ctxs_spec. rewrite H. reflexivity. Qed.
+  (* an entry that does not raise the ghost flag reads a good context list *)
+  Lemma entry_good : forall ms ident tid c,
+    Nat.eqb ident tid = false -> entry_bad reg cfg ms ident tid c = false -> good (ctxs_of reg cfg ms c).
+  Proof.
+    intros ms ident tid c Hn Hb. unfold entry_bad in Hb. rewrite Hn in Hb. simpl in Hb.
+    apply orb_false_iff in Hb. destruct Hb as [H1 H2]. apply negb_false_iff in H2.
+    assert (ctxs_of reg cfg ms c <> []) as Hne by (intro E; rewrite E in H1; discriminate).
+    split; [apply ctxs_head; exact Hne | split; [apply ctx_nodupb_NoDup; exact H2 | apply ctxs_has_ident; exact Hne]].
+  Qed.
+
+  (* for the flat locked class a non-empty list read by the code is exactly what the property demands *)
+  Lemma ctxs_of_flat : cfg_hier cfg = false -> forall ms c, ctxs_of reg cfg ms c <> [] ->
+    ctxs_of reg cfg ms c = ctxs_spec reg cfg ms c.
+  Proof.
+    intros H ms c Hne. unfold ctxs_of, ctxs_spec in *. rewrite H in *.
+    destruct (c_kind c) as [m|]; [|reflexivity]. destruct (reg ms m); [reflexivity | congruence].
+  Qed.
 End CtxLists.
 
 (* ------------------------------------------------------------------ the protocol invariant *)
@@ -113,13 +137,15 @@ Section Proto.
   Variable start : call -> K.
   Variable resume : K -> MS -> MS * list I * status (K:=K) (R:=R).
   Variable ret : K -> R -> K.
+  Variable reg : MS -> nat -> option (list nat).
   Variable cfg : lcfg.
   Hypothesis WF : wf_cfg cfg = true.
 
   Notation gst := (gstate (MS:=MS) (K:=K) (R:=R) (I:=I)).
   Notation thr := (thread (K:=K) (R:=R) (I:=I)).
   Notation actn := (act (K:=K) (R:=R)).
-  Notation stp := (step start resume ret cfg).
+  Notation stp := (step start resume ret reg cfg).
+  Notation goodc := (good cfg).
 
   Definition lockfree (b : actn) : Prop := a_held b = [] /\ exists k, a_phase b = PRun k.
 
@@ -130,10 +156,11 @@ Section Proto.
     match t_cur th with
     | None => t_nest th = []
     | Some a =>
+        goodc (a_ctxs a) /\
         match a_phase a with
-        | PAcq todo => rev (a_held a) ++ todo = ctxs_of cfg (a_call a) /\ todo <> [] /\ t_nest th = []
-        | PRun _ => rev (a_held a) = ctxs_of cfg (a_call a) /\ Forall lockfree (t_nest th)
-        | PRel _ => (exists suf, rev (a_held a) ++ suf = ctxs_of cfg (a_call a)) /\ a_held a <> []
+        | PAcq todo => rev (a_held a) ++ todo = a_ctxs a /\ todo <> [] /\ t_nest th = []
+        | PRun _ => rev (a_held a) = a_ctxs a /\ Forall lockfree (t_nest th)
+        | PRel _ => (exists suf, rev (a_held a) ++ suf = a_ctxs a) /\ a_held a <> []
                     /\ t_nest th = []
         end
     end.
@@ -148,9 +175,9 @@ Section Proto.
   Proof. reflexivity. Qed.
 
   Lemma shape_prefix : forall th a, shape th -> t_cur th = Some a ->
-    exists suf, rev (a_held a) ++ suf = ctxs_of cfg (a_call a).
+    exists suf, rev (a_held a) ++ suf = a_ctxs a.
   Proof.
-    intros th a H E. unfold shape in H. rewrite E in H. destruct (a_phase a) as [todo|k|r].
+    intros th a H E. unfold shape in H. rewrite E in H. destruct H as [_ H]. destruct (a_phase a) as [todo|k|r].
     - exists todo. apply H.
     - exists []. rewrite app_nil_r. apply H.
     - apply H.
@@ -160,7 +187,8 @@ Section Proto.
   Proof.
     intros th H Hne. unfold cur_held in *. destruct (t_cur th) as [a|] eqn:E; [|congruence].
     destruct (shape_prefix th a H E) as [suf Hs].
-    destruct (ctxs_head cfg WF (a_call a)) as [tl [Hc _]]. rewrite Hc in Hs.
+    assert (goodc (a_ctxs a)) as Hg by (unfold shape in H; rewrite E in H; apply H).
+    destruct (proj1 Hg) as [tl [Hc _]]. rewrite Hc in Hs.
     apply in_rev. destruct (rev (a_held a)) as [|x r] eqn:Er.
     - exfalso. apply Hne. rewrite <- (rev_involutive (a_held a)). rewrite Er. reflexivity.
     - simpl in Hs. inversion Hs. left. reflexivity.
@@ -176,15 +204,15 @@ Section Proto.
     apply (proj1 (Hl t1 N1)) in I1. apply (proj1 (Hl t2 N2)) in I2. congruence.
   Qed.
 
-  Lemma inv_update : forall (g : gst) tid th' ms' own' id' log' acq' done',
+  Lemma inv_update : forall (g : gst) tid th' ms' own' id' log' acq' done' bad',
     Inv g -> tid <> 0 -> shape th' ->
     (forall l, own' l = tid <-> In (CLock l) (cur_held th')) ->
     (id' = tid <-> In CIdent (cur_held th')) ->
     (forall t', t' <> 0 -> t' <> tid ->
        (forall l, own' l = t' <-> g_own g l = t') /\ (id' = t' <-> g_ident g = t')) ->
-    Inv (mkG ms' own' id' (upd (g_th g) tid th') log' acq' done').
+    Inv (mkG ms' own' id' (upd (g_th g) tid th') log' acq' done' bad').
   Proof.
-    intros g tid th' ms' own' id' log' acq' done' [Hs Hl] Nt Hsh Hown Hid Hfr. split.
+    intros g tid th' ms' own' id' log' acq' done' bad' [Hs Hl] Nt Hsh Hown Hid Hfr. split.
     - intros t N. simpl. destruct (Nat.eq_dec t tid) as [->|D].
       + rewrite upd_same. exact Hsh.
       + rewrite upd_other by exact D. apply Hs. exact N.
@@ -222,24 +250,27 @@ Section Proto.
     - apply IH. apply NoDup_remove_1 in H. exact H.
   Qed.
 
-  Lemma nodup_held : forall (h : list ctx) suf c, rev h ++ suf = ctxs_of cfg c -> NoDup h.
+  Lemma nodup_held : forall (h : list ctx) suf cs, NoDup cs -> rev h ++ suf = cs -> NoDup h.
   Proof.
-    intros h suf c E. pose proof (ctxs_nodup cfg WF c) as N. rewrite <- E in N.
+    intros h suf cs N E. rewrite <- E in N.
     apply NoDup_app_l in N. apply NoDup_rev in N. rewrite rev_involutive in N. exact N.
   Qed.
 
-  Lemma step_inv : forall tid (g : gst), Inv g -> Inv (stp tid g).
+  Lemma step_inv : forall tid (g : gst), Inv g -> g_bad (stp tid g) = false -> Inv (stp tid g).
   Proof.
-    intros tid g HI. unfold step. destruct (Nat.eqb tid 0) eqn:E0; [exact HI|]. apply Nat.eqb_neq in E0.
+    intros tid g HI. unfold step. destruct (Nat.eqb tid 0) eqn:E0; [intros _; exact HI|]. apply Nat.eqb_neq in E0.
     pose proof (proj1 HI tid E0) as Hsh. destruct (proj2 HI tid E0) as [Hown Hid].
     rewrite held_cur_held in Hown, Hid. unfold shape in Hsh. unfold cur_held in Hown, Hid.
     destruct (t_nest (g_th g tid)) as [|top restn] eqn:En.
     - destruct (t_cur (g_th g tid)) as [a|] eqn:Ec.
-      + destruct a as [c ph hd]. unfold act_step. simpl in *. destruct ph as [todo|k|r].
+      + destruct a as [c ph hd acx]. unfold act_step. simpl in *. destruct Hsh as [Hgood Hsh].
+        destruct (proj1 Hgood) as [tl0 [Hc0 Htl0]]. destruct Hgood as [_ [Hnd Hident]].
+        destruct ph as [todo|k|r].
         * destruct Hsh as [Hpre [Hne _]]. destruct todo as [|x todo]; [congruence|]. destruct x as [l|].
-          -- destruct (Nat.eqb (g_own g l) 0) eqn:Eo; simpl.
+          -- destruct (Nat.eqb (g_own g l) 0) eqn:Eo; simpl; intros _.
              ++ apply Nat.eqb_eq in Eo. apply inv_update; try assumption.
-                ** unfold shape, after_acq. simpl. destruct todo as [|y todo']; simpl.
+                ** unfold shape, after_acq. simpl. split; [repeat split; try assumption; eexists; split; eassumption|].
+                   destruct todo as [|y todo']; simpl.
                    { split; [rewrite <- Hpre; reflexivity | constructor]. }
                    { split; [rewrite <- app_assoc; exact Hpre | split; [discriminate | reflexivity]]. }
                 ** intro l'. unfold cur_held. simpl. destruct (Nat.eq_dec l' l) as [->|D].
@@ -249,10 +280,12 @@ Section Proto.
                 ** unfold cur_held. simpl. rewrite Hid. split; [intro HH; right; exact HH|]. intros [H|H]; [discriminate|exact H].
                 ** intros t' N D. split; [|tauto]. intro l'. apply frame_acquire; assumption.
              ++ apply inv_update; try assumption.
-                ** unfold shape. simpl. split; [exact Hpre | split; [discriminate | reflexivity]].
+                ** unfold shape. simpl. split; [repeat split; try assumption; eexists; split; eassumption|].
+                   split; [exact Hpre | split; [discriminate | reflexivity]].
                 ** intros t' N D. tauto.
-          -- simpl. apply inv_update; try assumption.
-             ++ unfold shape, after_acq. simpl. destruct todo as [|y todo']; simpl.
+          -- simpl. intros _. apply inv_update; try assumption.
+             ++ unfold shape, after_acq. simpl. split; [repeat split; try assumption; eexists; split; eassumption|].
+                destruct todo as [|y todo']; simpl.
                 { split; [rewrite <- Hpre; reflexivity | constructor]. }
                 { split; [rewrite <- app_assoc; exact Hpre | split; [discriminate | reflexivity]]. }
              ++ intro l'. unfold cur_held. simpl. rewrite Hown. split; [intro HH; right; exact HH|].
@@ -262,26 +295,29 @@ Section Proto.
                 intro Hi. exfalso. apply D. apply (mutex_held g t' tid HI N E0).
                 ** destruct (proj2 HI t' N) as [_ Hid']. apply Hid' in Hi. intro E. rewrite E in Hi. exact Hi.
                 ** unfold held. rewrite Ec. simpl. intro E. subst hd. simpl in Hpre.
-                   destruct (ctxs_head cfg WF c) as [tl [Hc _]]. rewrite Hc in Hpre. discriminate.
+                   rewrite Hc0 in Hpre. discriminate.
         * destruct Hsh as [Hpre _].
           assert (hd <> []) as Hhd.
-          { intro E. subst hd. simpl in Hpre. destruct (ctxs_head cfg WF c) as [tl [Hc _]]. rewrite Hc in Hpre. discriminate. }
+          { intro E. subst hd. simpl in Hpre. rewrite Hc0 in Hpre. discriminate. }
           assert (g_ident g = tid) as Hidt.
-          { apply Hid. apply in_rev. rewrite Hpre. apply ctxs_has_ident. }
-          destruct (resume k (g_ms g)) as [[ms' its] st]. destruct st as [k'|c' k'|r]; simpl.
+          { apply Hid. apply in_rev. rewrite Hpre. exact Hident. }
+          destruct (resume k (g_ms g)) as [[ms' its] st]. destruct st as [k'|c' k'|r]; simpl; intros _.
           -- apply inv_update; try assumption.
-             ++ unfold shape. simpl. split; [exact Hpre | constructor].
+             ++ unfold shape. simpl. split; [repeat split; try assumption; eexists; split; eassumption|].
+                split; [exact Hpre | constructor].
              ++ intros t' N D. tauto.
           -- apply inv_update; try assumption.
-             ++ unfold shape. simpl. split; [exact Hpre|]. constructor; [|constructor].
+             ++ unfold shape. simpl. split; [repeat split; try assumption; eexists; split; eassumption|].
+                split; [exact Hpre|]. constructor; [|constructor].
                 unfold enter_call. rewrite Hidt, Nat.eqb_refl. split; [reflexivity | eexists; reflexivity].
              ++ intros t' N D. tauto.
           -- destruct hd as [|x h]; [congruence|]. simpl. apply inv_update; try assumption.
-             ++ unfold shape. simpl. split; [exists []; rewrite app_nil_r; exact Hpre | split; [discriminate|reflexivity]].
+             ++ unfold shape. simpl. split; [repeat split; try assumption; eexists; split; eassumption|].
+                split; [exists []; rewrite app_nil_r; exact Hpre | split; [discriminate|reflexivity]].
              ++ intros t' N D. tauto.
         * destruct Hsh as [[suf Hpre] [Hne _]]. destruct hd as [|x h]; [congruence|].
-          pose proof (nodup_held _ _ _ Hpre) as ND. inversion ND as [|x' h' Hnin NDh]; subst.
-          destruct h as [|y h']; simpl.
+          pose proof (nodup_held _ _ _ Hnd Hpre) as ND. inversion ND as [|x' h' Hnin NDh]; subst x' h'.
+          destruct h as [|y h']; simpl; intros _.
           -- apply inv_update; try assumption.
              ++ unfold shape. simpl. reflexivity.
              ++ intro l'. unfold cur_held. simpl. split; [|tauto]. intro H. destruct x as [l|].
@@ -297,7 +333,8 @@ Section Proto.
                 ** split; [tauto|]. assert (g_ident g = tid) by (apply Hid; left; reflexivity).
                    split; intro; congruence.
           -- rewrite rev_cons_app in Hpre. apply inv_update; try assumption.
-             ++ unfold shape. simpl. split; [eexists; exact Hpre | split; [discriminate | reflexivity]].
+             ++ unfold shape. simpl. split; [repeat split; try assumption; eexists; split; eassumption|].
+                split; [eexists; exact Hpre | split; [discriminate | reflexivity]].
              ++ intro l'. unfold cur_held. simpl. destruct x as [l|].
                 ** destruct (Nat.eq_dec l' l) as [->|D].
                    { rewrite upd_same. split; [congruence|]. intro H. exfalso. apply Hnin. exact H. }
@@ -312,40 +349,42 @@ Section Proto.
                    apply Hown. left. reflexivity.
                 ** split; [tauto|]. assert (g_ident g = tid) by (apply Hid; left; reflexivity).
                    split; intro; congruence.
-      + destruct (t_prog (g_th g tid)) as [|c rest] eqn:Ep; [exact HI|].
-        assert (g_ident g <> tid) as Hni by (intro E; apply Hid in E; exact E).
+      + destruct (t_prog (g_th g tid)) as [|c rest] eqn:Ep; [intros _; exact HI|].
+        simpl. intro Hb. apply orb_false_iff in Hb. destruct Hb as [_ Hb].
+        assert (Nat.eqb (g_ident g) tid = false) as Hni.
+        { apply Nat.eqb_neq. intro E. apply Hid in E. exact E. }
+        pose proof (entry_good reg cfg WF _ _ _ _ Hni Hb) as Hgood.
+        destruct (proj1 Hgood) as [tl [Hc _]].
         apply inv_update; try assumption.
-        * unfold shape, enter_call. apply Nat.eqb_neq in Hni. rewrite Hni.
-          destruct (ctxs_head cfg WF c) as [tl [Hc _]]. rewrite Hc. simpl.
-          split; [symmetry; exact Hc | split; [discriminate | reflexivity]].
-        * intro l'. unfold cur_held, enter_call. apply Nat.eqb_neq in Hni. rewrite Hni.
-          destruct (ctxs_head cfg WF c) as [tl [Hc _]]. rewrite Hc. simpl. apply Hown.
-        * unfold cur_held, enter_call. destruct (Nat.eqb (g_ident g) tid) eqn:E; [apply Nat.eqb_eq in E; congruence|].
-          destruct (ctxs_head cfg WF c) as [tl [Hc _]]. rewrite Hc. simpl. apply Hid.
+        * unfold shape, enter_call. rewrite Hni. rewrite Hc. simpl. rewrite <- Hc.
+          split; [exact Hgood | split; [reflexivity | split; [rewrite Hc; discriminate | reflexivity]]].
+        * intro l'. unfold cur_held, enter_call. rewrite Hni, Hc. simpl. apply Hown.
+        * unfold cur_held, enter_call. rewrite Hni, Hc. simpl. apply Hid.
         * intros t' N D. tauto.
     - (* a nested (re-entrant) activation is on top *)
       destruct (t_cur (g_th g tid)) as [a|] eqn:Ec; [|discriminate].
+      destruct Hsh as [Hgood Hsh].
       destruct (a_phase a) as [todo|k0|r0] eqn:Eph; try (destruct Hsh as [_ [_ Hsh]]; discriminate).
       destruct Hsh as [Hpre Hlf]. inversion Hlf as [|top' restn' [Hth [k Hk]] Hrest]; subst top' restn'.
       assert (g_ident g = tid) as Hidt.
-      { apply Hid. apply in_rev. rewrite Hpre. apply ctxs_has_ident. }
-      destruct top as [c ph hd]. simpl in Hth, Hk. subst hd ph. unfold act_step. simpl.
+      { apply Hid. apply in_rev. rewrite Hpre. apply Hgood. }
+      destruct top as [c ph hd acx]. simpl in Hth, Hk. subst hd ph. unfold act_step. simpl.
       destruct (resume k (g_ms g)) as [[ms' its] st]. destruct st as [k'|c' k'|r]; simpl.
-      + apply inv_update; try assumption; [|intros t' N D; tauto].
-        unfold shape. simpl. rewrite Eph. split; [exact Hpre|]. constructor; [|exact Hrest].
+      + intros _. apply inv_update; try assumption; [|intros t' N D; tauto].
+        unfold shape. simpl. rewrite Eph. split; [exact Hgood|]. split; [exact Hpre|]. constructor; [|exact Hrest].
         split; [reflexivity | eexists; reflexivity].
-      + apply inv_update; try assumption; [|intros t' N D; tauto].
-        unfold shape. simpl. rewrite Eph. split; [exact Hpre|]. constructor; [|constructor; [|exact Hrest]].
+      + intros _. apply inv_update; try assumption; [|intros t' N D; tauto].
+        unfold shape. simpl. rewrite Eph. split; [exact Hgood|]. split; [exact Hpre|]. constructor; [|constructor; [|exact Hrest]].
         * unfold enter_call. rewrite Hidt, Nat.eqb_refl. split; [reflexivity | eexists; reflexivity].
         * split; [reflexivity | eexists; reflexivity].
-      + destruct restn as [|p restn']; simpl.
+      + destruct restn as [|p restn']; simpl; intros _.
         * apply inv_update; try assumption.
-          -- unfold shape, deliver. simpl. rewrite Eph. simpl. split; [exact Hpre | constructor].
+          -- unfold shape, deliver. simpl. rewrite Eph. simpl. split; [exact Hgood|]. split; [exact Hpre | constructor].
           -- unfold cur_held, deliver. simpl. rewrite Eph. exact Hown.
           -- unfold cur_held, deliver. simpl. rewrite Eph. exact Hid.
           -- intros t' N D. tauto.
         * apply inv_update; try assumption; [|intros t' N D; tauto].
-          unfold shape. simpl. rewrite Eph. split; [exact Hpre|].
+          unfold shape. simpl. rewrite Eph. split; [exact Hgood|]. split; [exact Hpre|].
           inversion Hrest as [|p' r' [Hp1 [kp Hp2]] Hr']; subst. constructor; [|exact Hr'].
           unfold deliver. rewrite Hp2. simpl. split; [exact Hp1 | eexists; reflexivity].
   Qed.
@@ -357,9 +396,29 @@ Section Proto.
     - intros t N. unfold held. simpl. split; [intro l|]; split; intro H; try contradiction; congruence.
   Qed.
 
-  Lemma run_inv : forall sched (g : gst), Inv g -> Inv (run start resume ret cfg sched g).
+  (* the ghost flag is never reset *)
+  Lemma step_bad_mono : forall tid (g : gst), g_bad g = true -> g_bad (stp tid g) = true.
   Proof.
-    induction sched as [|t r IH]; intros g H; simpl; [exact H|]. apply IH. apply step_inv. exact H.
+    intros tid g H. unfold step. destruct (Nat.eqb tid 0); [exact H|].
+    destruct (t_nest (g_th g tid)) as [|top restn].
+    - destruct (t_cur (g_th g tid)) as [a|].
+      + destruct (act_step start resume reg cfg tid a _) as [[s' o] its].
+        destruct o; simpl; rewrite H; reflexivity.
+      + destruct (t_prog (g_th g tid)); [exact H|]. simpl. rewrite H. reflexivity.
+    - destruct (act_step start resume reg cfg tid top _) as [[s' o] its].
+      destruct o; [| |destruct restn|]; simpl; rewrite H; reflexivity.
+  Qed.
+
+  Lemma run_bad_mono : forall sched (g : gst), g_bad g = true -> g_bad (run start resume ret reg cfg sched g) = true.
+  Proof.
+    induction sched as [|t r IH]; intros g H; simpl; [exact H|]. apply IH. apply step_bad_mono. exact H.
+  Qed.
+
+  Lemma run_inv : forall sched (g : gst), Inv g -> g_bad (run start resume ret reg cfg sched g) = false ->
+    Inv (run start resume ret reg cfg sched g).
+  Proof.
+    induction sched as [|t r IH]; intros g H Hb; simpl in *; [exact H|]. apply IH; [|exact Hb]. apply step_inv; [exact H|].
+    destruct (g_bad (stp t g)) eqn:E; [|reflexivity]. rewrite (run_bad_mono r _ E) in Hb. discriminate.
   Qed.
 
   (* ---------------------------------------------------------------- consequences of the invariant *)
@@ -367,24 +426,31 @@ Section Proto.
     exists a k, top_act (g_th g t) = Some a /\ a_phase a = PRun k.
 
   Lemma in_segment_running : forall (g : gst) t, Inv g -> t <> 0 -> in_segment g t ->
-    exists a k, t_cur (g_th g t) = Some a /\ a_phase a = PRun k /\ rev (a_held a) = ctxs_of cfg (a_call a).
+    exists a k, t_cur (g_th g t) = Some a /\ a_phase a = PRun k /\ rev (a_held a) = a_ctxs a /\ goodc (a_ctxs a).
   Proof.
     intros g t [Hs _] N [a [k [Ht Hp]]]. specialize (Hs t N). unfold shape in Hs. unfold top_act in Ht.
     destruct (t_nest (g_th g t)) as [|top rest] eqn:En.
-    - rewrite Ht in Hs. rewrite Hp in Hs. exists a, k. split; [exact Ht | split; [exact Hp | apply Hs]].
-    - destruct (t_cur (g_th g t)) as [b|]; [|discriminate].
+    - rewrite Ht in Hs. rewrite Hp in Hs. exists a, k. split; [exact Ht | split; [exact Hp | split; apply Hs]].
+    - destruct (t_cur (g_th g t)) as [b|]; [|discriminate]. destruct Hs as [Hg Hs].
       destruct (a_phase b) as [todo|kb|rb] eqn:Eb.
       + destruct Hs as [_ [_ Hs]]. discriminate.
-      + exists b, kb. split; [reflexivity | split; [exact Eb | apply Hs]].
+      + exists b, kb. split; [reflexivity | split; [exact Eb | split; [apply Hs | exact Hg]]].
       + destruct Hs as [_ [_ Hs]]. discriminate.
+  Qed.
+
+  Lemma running_shape : forall (g : gst) t a k, Inv g -> t <> 0 ->
+    t_cur (g_th g t) = Some a -> a_phase a = PRun k -> rev (a_held a) = a_ctxs a /\ goodc (a_ctxs a).
+  Proof.
+    intros g t a k HI N Ec Ep. pose proof (proj1 HI t N) as Hs. unfold shape in Hs.
+    rewrite Ec, Ep in Hs. split; apply Hs.
   Qed.
 
   Lemma running_holds_all : forall (g : gst) t a k, Inv g -> t <> 0 ->
     t_cur (g_th g t) = Some a -> a_phase a = PRun k ->
-    forall x, In x (ctxs_of cfg (a_call a)) -> holds g t x.
+    forall x, In x (a_ctxs a) -> holds g t x.
   Proof.
-    intros g t a k HI N Ec Ep x Hx. pose proof (proj1 HI t N) as Hs. unfold shape in Hs.
-    rewrite Ec, Ep in Hs. destruct Hs as [Hpre _]. rewrite <- Hpre in Hx. apply in_rev in Hx.
+    intros g t a k HI N Ec Ep x Hx. destruct (running_shape g t a k HI N Ec Ep) as [Hpre _].
+    rewrite <- Hpre in Hx. apply in_rev in Hx.
     destruct (proj2 HI t N) as [Ho Hi]. unfold held in Ho, Hi. rewrite Ec in Ho, Hi.
     destruct x as [l|]; simpl; [apply Ho | apply Hi]; exact Hx.
   Qed.
@@ -400,8 +466,8 @@ Section Proto.
     t_cur (g_th g t) = Some a -> a_phase a = PRun k -> held g t <> [].
   Proof.
     intros g t a k HI N Ec Ep E. pose proof (proj1 HI t N) as Hs. unfold shape in Hs. rewrite Ec, Ep in Hs.
-    unfold held in E. rewrite Ec in E. destruct Hs as [Hpre _]. rewrite E in Hpre. simpl in Hpre.
-    destruct (ctxs_head cfg WF (a_call a)) as [tl [Hc _]]. rewrite Hc in Hpre. discriminate.
+    unfold held in E. rewrite Ec in E. destruct Hs as [Hg [Hpre _]]. rewrite E in Hpre. simpl in Hpre.
+    destruct (proj1 Hg) as [tl [Hc _]]. rewrite Hc in Hpre. discriminate.
   Qed.
 
   Lemma segment_mutex : forall (g : gst) t1 t2, Inv g -> t1 <> 0 -> t2 <> 0 ->
@@ -416,7 +482,7 @@ Section Proto.
   Lemma holder_not_blocked : forall (g : gst) t, Inv g -> t <> 0 -> held g t <> [] -> blocked g t = false.
   Proof.
     intros g t HI N Hh. pose proof (proj1 HI t N) as Hs. unfold shape in Hs. unfold blocked, top_act.
-    unfold held in Hh. destruct (t_cur (g_th g t)) as [a|] eqn:Ec; [|congruence].
+    unfold held in Hh. destruct (t_cur (g_th g t)) as [a|] eqn:Ec; [|congruence]. destruct Hs as [Hgood Hs].
     destruct (t_nest (g_th g t)) as [|top rest] eqn:En.
     - destruct (a_phase a) as [todo|k|r] eqn:Ep; try reflexivity.
       destruct todo as [|x todo]; [reflexivity|]. destruct x as [l|]; [|reflexivity].
@@ -428,7 +494,7 @@ Section Proto.
           apply (proj1 Ho). reflexivity.
         - unfold held. rewrite Ec. exact Hh. }
       destruct (proj2 HI t N) as [Ho _]. unfold held in Ho. rewrite Ec in Ho. apply Ho in Et.
-      pose proof (ctxs_nodup cfg WF (a_call a)) as ND. rewrite <- Hpre in ND.
+      pose proof (proj1 (proj2 Hgood)) as ND. rewrite <- Hpre in ND.
       apply NoDup_remove_2 in ND. apply ND. apply in_or_app. left. apply in_rev in Et. exact Et.
     - destruct (a_phase a) as [todo|k|r] eqn:Ep.
       + destruct Hs as [_ [_ Hs]]. discriminate.
@@ -456,8 +522,8 @@ Section Proto.
 
   Lemma running_ident : forall (g : gst) t, Inv g -> t <> 0 -> in_segment g t -> g_ident g = t.
   Proof.
-    intros g t HI N S. destruct (in_segment_running g t HI N S) as [a [k [Ec [Ep Hpre]]]].
-    apply (running_holds_all g t a k HI N Ec Ep CIdent). apply ctxs_has_ident.
+    intros g t HI N S. destruct (in_segment_running g t HI N S) as [a [k [Ec [Ep [Hpre Hg]]]]].
+    apply (running_holds_all g t a k HI N Ec Ep CIdent). apply Hg.
   Qed.
 
   (* a call made from a callback by the thread that is inside: no lock is touched, the new
@@ -467,7 +533,7 @@ Section Proto.
     resume k (g_ms g) = (ms', its, SCall c' k') ->
     let g' := stp tid g in
     (forall l, g_own g' l = g_own g l) /\ g_ident g' = g_ident g /\
-    top_act (g_th g' tid) = Some (mkAct c' (PRun (start c')) []) /\
+    top_act (g_th g' tid) = Some (mkAct c' (PRun (start c')) [] []) /\
     blocked g' tid = false /\
     g_log g' = g_log g ++ [EvSeg tid (a_call a) its].
   Proof.
@@ -488,7 +554,7 @@ Section Proto.
   Proof.
     intros g t HI N Hn. apply holder_not_blocked; try assumption.
     pose proof (proj1 HI t N) as Hs. unfold shape in Hs. unfold held.
-    destruct (t_cur (g_th g t)) as [a|] eqn:Ec; [|congruence].
+    destruct (t_cur (g_th g t)) as [a|] eqn:Ec; [|congruence]. destruct Hs as [_ Hs].
     destruct (a_phase a) as [todo|k|r] eqn:Ep.
     - destruct Hs as [_ [_ Hs]]. congruence.
     - intro E. apply (running_held_ne g t a k HI N Ec Ep). unfold held. rewrite Ec. exact E.
@@ -551,17 +617,17 @@ Section Proto.
   Definition SInv (g : gst) : Prop :=
     exists msk, sexec (dcalls (g_done g)) ms0 msk (dress (g_done g)) /\ HA g msk /\ HB g msk /\ HC g.
 
-  Lemma sinv_update : forall (g : gst) tid th' ms' own' id' log' acq' done' msk msk',
-    Inv g -> Inv (mkG ms' own' id' (upd (g_th g) tid th') log' acq' done') -> tid <> 0 ->
+  Lemma sinv_update : forall (g : gst) tid th' ms' own' id' log' acq' done' bad' msk msk',
+    Inv g -> Inv (mkG ms' own' id' (upd (g_th g) tid th') log' acq' done' bad') -> tid <> 0 ->
     HA g msk -> HB g msk -> HC g ->
     sexec (dcalls done') ms0 msk' (dress done') ->
     (cur_held th' = [] -> (forall t, t <> 0 -> t <> tid -> held g t = []) -> ms' = msk' /\ acq' = dpairs done') ->
     (forall a, t_cur th' = Some a -> a_held a <> [] -> modeB ms' acq' done' th' tid a msk') ->
     (forall a todo, t_cur th' = Some a -> a_phase a = PAcq todo -> t_items th' = []) ->
     (held g tid = [] -> cur_held th' = [] -> ms' = g_ms g /\ acq' = g_acq g /\ done' = g_done g /\ msk' = msk) ->
-    SInv (mkG ms' own' id' (upd (g_th g) tid th') log' acq' done').
+    SInv (mkG ms' own' id' (upd (g_th g) tid th') log' acq' done' bad').
   Proof.
-    intros g tid th' ms' own' id' log' acq' done' msk msk' HI HI' N A B C Hser LA LB LC FR.
+    intros g tid th' ms' own' id' log' acq' done' bad' msk msk' HI HI' N A B C Hser LA LB LC FR.
     exists msk'. split; [exact Hser|]. split; [|split].
     - intro Hno. simpl. apply LA.
       + specialize (Hno tid N). unfold held in Hno. simpl in Hno. rewrite upd_same in Hno. exact Hno.
@@ -600,9 +666,9 @@ Section Proto.
     apply (proj1 (proj2 HI t N)) in Hin. congruence.
   Qed.
 
-  Lemma step_sinv : forall tid (g : gst), Inv g -> SInv g -> SInv (stp tid g).
+  Lemma step_sinv : forall tid (g : gst), Inv g -> SInv g -> g_bad (stp tid g) = false -> SInv (stp tid g).
   Proof.
-    intros tid g HI [msk [Hser [A [B C]]]]. pose proof (step_inv tid g HI) as HI'. revert HI'.
+    intros tid g HI [msk [Hser [A [B C]]]] Hbad. pose proof (step_inv tid g HI Hbad) as HI'. revert HI'. clear Hbad.
     unfold step. destruct (Nat.eqb tid 0) eqn:E0.
     { intros _. exists msk. split; [exact Hser | split; [exact A | split; [exact B | exact C]]]. }
     apply Nat.eqb_neq in E0.
@@ -610,7 +676,9 @@ Section Proto.
     destruct (proj2 HI tid E0) as [Hown Hid]. rewrite held_cur_held in Hown, Hid. unfold cur_held in Hown, Hid.
     destruct (t_nest (g_th g tid)) as [|top restn] eqn:En.
     - destruct (t_cur (g_th g tid)) as [a|] eqn:Ec.
-      + destruct a as [c ph hd]. unfold act_step. simpl in *. destruct ph as [todo|k|r].
+      + destruct a as [c ph hd acx]. unfold act_step. simpl in *. destruct Hsh as [Hgood Hsh].
+        destruct (proj1 Hgood) as [tl0 [Hc0 Htl0]]. destruct Hgood as [_ [Hnd Hident]].
+        destruct ph as [todo|k|r].
         * (* entering contexts *)
           destruct Hsh as [Hpre [Hne _]]. destruct todo as [|x todo]; [congruence|].
           assert (t_items (g_th g tid) ++ [] = []) as Hit.
@@ -619,8 +687,8 @@ Section Proto.
           -- destruct (Nat.eqb (g_own g l) 0) eqn:Eo; simpl; intro HI'.
              ++ apply Nat.eqb_eq in Eo. destruct hd as [|y h]; simpl.
                 ** (* first acquisition: nobody was inside *)
-                   simpl in Hpre. destruct (ctxs_head cfg WF c) as [tl [Hc Htl]]. rewrite Hc in Hpre.
-                   inversion Hpre; subst l todo.
+                   simpl in Hpre. rewrite Hc0 in Hpre.
+                   inversion Hpre; subst l todo. rename tl0 into tl. rename Htl0 into Htl.
                    destruct (A (nobody_holds_if_L0_free g HI Eo)) as [Ems Eacq].
                    eapply sinv_update with (msk := msk) (msk' := msk); try eassumption.
                    --- intros H _. discriminate H.
@@ -648,7 +716,7 @@ Section Proto.
           -- (* entering the ident manager *)
              simpl. intro HI'.
              assert (hd <> []) as Hhd.
-             { intro E. subst hd. simpl in Hpre. destruct (ctxs_head cfg WF c) as [tl [Hc _]]. rewrite Hc in Hpre. discriminate. }
+             { intro E. subst hd. simpl in Hpre. rewrite Hc0 in Hpre. discriminate. }
              destruct hd as [|y h]; [congruence|]. simpl.
              pose proof (B tid _ E0 Ec) as Bt. simpl in Bt. unfold modeB in Bt. simpl in Bt.
              destruct Bt as [Ems Eacq]; [discriminate|].
@@ -663,9 +731,9 @@ Section Proto.
         * (* a segment of the top-level call *)
           destruct Hsh as [Hpre _].
           assert (hd <> []) as Hhd.
-          { intro E. subst hd. simpl in Hpre. destruct (ctxs_head cfg WF c) as [tl [Hc _]]. rewrite Hc in Hpre. discriminate. }
+          { intro E. subst hd. simpl in Hpre. rewrite Hc0 in Hpre. discriminate. }
           assert (g_ident g = tid) as Hidt.
-          { apply Hid. apply in_rev. rewrite Hpre. apply ctxs_has_ident. }
+          { apply Hid. apply in_rev. rewrite Hpre. exact Hident. }
           pose proof (B tid _ E0 Ec) as Bt. simpl in Bt. unfold modeB in Bt. simpl in Bt.
           destruct Bt as [[n Hn] Eacq]; [exact Hhd|]. rewrite En in Hn.
           destruct hd as [|y h]; [congruence|]. unfold kstack in Hn. simpl in Hn.
@@ -710,7 +778,12 @@ Section Proto.
         intro HI'.
         assert (Nat.eqb (g_ident g) tid = false) as Hni.
         { apply Nat.eqb_neq. intro E. apply Hid in E. exact E. }
-        destruct (ctxs_head cfg WF c) as [tl [Hc _]].
+        assert (exists tl, ctxs_of reg cfg (g_ms g) c = CLock (L0 cfg) :: tl) as [tl Hc].
+        { pose proof (proj1 HI' tid E0) as Hs'. simpl in Hs'. rewrite upd_same in Hs'. unfold shape in Hs'. simpl in Hs'.
+          unfold enter_call in Hs'. rewrite Hni in Hs'.
+          destruct (ctxs_of reg cfg (g_ms g) c) as [|x0 r0] eqn:Ecs; simpl in Hs'.
+          - destruct Hs' as [[[tl1 [Hx _]] _] _]. discriminate Hx.
+          - destruct Hs' as [[[tl1 [Hx _]] _] _]. inversion Hx. eexists. reflexivity. }
         eapply sinv_update with (msk := msk) (msk' := msk); try eassumption.
         * intros _ Hoth. apply A. intros t Nt. destruct (Nat.eq_dec t tid) as [->|D].
           { unfold held. rewrite Ec. reflexivity. } { apply Hoth; assumption. }
@@ -719,15 +792,16 @@ Section Proto.
         * intros _ _. repeat split; reflexivity.
     - (* a segment of a nested call *)
       destruct (t_cur (g_th g tid)) as [a|] eqn:Ec; [|discriminate].
+      destruct Hsh as [Hgood Hsh].
       destruct (a_phase a) as [todo|k0|r0] eqn:Eph; try (destruct Hsh as [_ [_ Hsh]]; discriminate).
       destruct Hsh as [Hpre Hlf]. inversion Hlf as [|top' restn' [Hth [k Hk]] Hrest]; subst top' restn'.
       assert (g_ident g = tid) as Hidt.
-      { apply Hid. apply in_rev. rewrite Hpre. apply ctxs_has_ident. }
+      { apply Hid. apply in_rev. rewrite Hpre. apply Hgood. }
       assert (a_held a <> []) as Hhd.
-      { intro E. rewrite E in Hpre. simpl in Hpre. destruct (ctxs_head cfg WF (a_call a)) as [tl [Hc _]]. rewrite Hc in Hpre. discriminate. }
+      { intro E. rewrite E in Hpre. simpl in Hpre. destruct (proj1 Hgood) as [tl [Hc _]]. rewrite Hc in Hpre. discriminate. }
       pose proof (B tid _ E0 Ec Hhd) as Bt. unfold modeB in Bt. rewrite Eph in Bt.
       destruct Bt as [[n Hn] Eacq]. rewrite En in Hn.
-      destruct top as [c ph hd]. simpl in Hth, Hk. subst hd ph. unfold kstack in Hn. simpl in Hn. unfold act_k at 1 in Hn. simpl in Hn.
+      destruct top as [c ph hd acx]. simpl in Hth, Hk. subst hd ph. unfold kstack in Hn. simpl in Hn. unfold act_k at 1 in Hn. simpl in Hn.
       pose proof (seq_iter_snoc _ _ _ _ _ Hn) as Hn'. unfold seq_step in Hn'.
       unfold act_step. simpl.
       destruct (resume k (g_ms g)) as [[ms' its] st]. destruct st as [k'|c' k'|r]; simpl.
@@ -771,17 +845,21 @@ Section Proto.
   Qed.
 
   Lemma run_both : forall sched (g : gst), Inv g -> SInv g ->
-    Inv (run start resume ret cfg sched g) /\ SInv (run start resume ret cfg sched g).
+    g_bad (run start resume ret reg cfg sched g) = false ->
+    Inv (run start resume ret reg cfg sched g) /\ SInv (run start resume ret reg cfg sched g).
   Proof.
-    induction sched as [|t r IH]; intros g H1 H2; simpl; [split; assumption|].
-    apply IH; [apply step_inv | apply step_sinv]; assumption.
+    induction sched as [|t r IH]; intros g H1 H2 Hb; simpl in *; [split; assumption|].
+    assert (g_bad (stp t g) = false) as Hb1.
+    { destruct (g_bad (stp t g)) eqn:E; [|reflexivity]. rewrite (run_bad_mono r _ E) in Hb. discriminate. }
+    apply IH; [apply step_inv | apply step_sinv | exact Hb]; assumption.
   Qed.
 
+  (* reachable within the envelope: the ghost flag is still down *)
   Definition reachable (progs : nat -> list call) (g : gst) : Prop :=
-    exists sched, g = run start resume ret cfg sched (init progs ms0).
+    exists sched, g = run start resume ret reg cfg sched (init progs ms0) /\ g_bad g = false.
 
   Lemma reachable_inv : forall progs g, reachable progs g -> Inv g /\ SInv g.
-  Proof. intros progs g [sched ->]. apply run_both; [apply init_inv | apply init_sinv]. Qed.
+  Proof. intros progs g [sched [-> Hb]]. apply run_both; [apply init_inv | apply init_sinv | exact Hb]. Qed.
 
   Lemma serial_final : forall progs g, reachable progs g ->
     exists msk, sexec (dcalls (g_done g)) ms0 msk (dress (g_done g)) /\
@@ -827,14 +905,14 @@ Section Proto.
     - rewrite app_nil_r. reflexivity.
   Qed.
 
-  Lemma pinv_update : forall progs (g : gst) tid th' ms' own' id' log' acq' done',
+  Lemma pinv_update : forall progs (g : gst) tid th' ms' own' id' log' acq' done' bad',
     PInv progs g -> tid <> 0 ->
     ((done' = g_done g /\ pend th' ++ t_prog th' = pend (g_th g tid) ++ t_prog (g_th g tid)) \/
      (exists x, done' = g_done g ++ [x] /\ d_tid x = tid /\
                 d_call x :: pend th' ++ t_prog th' = pend (g_th g tid) ++ t_prog (g_th g tid))) ->
-    PInv progs (mkG ms' own' id' (upd (g_th g) tid th') log' acq' done').
+    PInv progs (mkG ms' own' id' (upd (g_th g) tid th') log' acq' done' bad').
   Proof.
-    intros progs g tid th' ms' own' id' log' acq' done' H N Hc t Nt. simpl.
+    intros progs g tid th' ms' own' id' log' acq' done' bad' H N Hc t Nt. simpl.
     destruct (Nat.eq_dec t tid) as [->|D].
     - rewrite upd_same. rewrite (H tid N). destruct Hc as [[-> E]|[x [-> [Ex E]]]].
       + rewrite E. reflexivity.
@@ -848,7 +926,7 @@ Section Proto.
     intros progs tid g H. unfold step. destruct (Nat.eqb tid 0) eqn:E0; [exact H|]. apply Nat.eqb_neq in E0.
     destruct (t_nest (g_th g tid)) as [|top restn] eqn:En.
     - destruct (t_cur (g_th g tid)) as [a|] eqn:Ec.
-      + destruct a as [c ph hd]. unfold act_step. simpl. destruct ph as [todo|k|r].
+      + destruct a as [c ph hd acx]. unfold act_step. simpl. destruct ph as [todo|k|r].
         * destruct todo as [|x todo].
           { simpl. apply pinv_update; [exact H | exact E0|]. left. unfold pend. simpl. rewrite Ec. split; reflexivity. }
           destruct x as [l|].
@@ -872,9 +950,9 @@ Section Proto.
       + destruct (t_prog (g_th g tid)) as [|c rest] eqn:Ep; [exact H|].
         apply pinv_update; [exact H | exact E0|]. left. split; [reflexivity|].
         unfold pend. simpl. rewrite Ec, Ep. unfold enter_call.
-        destruct (Nat.eqb (g_ident g) tid); [reflexivity|]. destruct (ctxs_of cfg c); reflexivity.
+        destruct (Nat.eqb (g_ident g) tid); [reflexivity|]. destruct (ctxs_of reg cfg (g_ms g) c); reflexivity.
     - match goal with |- context [act_step ?a ?b ?c ?d ?e ?f] => destruct (act_step a b c d e f) as [[s' o] its] end.
-      destruct o as [a'|a' b|r|].
+      destruct o as [a'|a' b bd|r|].
       + apply pinv_update; [exact H | exact E0|]. left. split; [reflexivity|]. unfold pend. reflexivity.
       + apply pinv_update; [exact H | exact E0|]. left. split; [reflexivity|]. unfold pend. reflexivity.
       + destruct restn as [|p restn'].
@@ -888,9 +966,57 @@ Section Proto.
   Lemma init_pinv : forall progs, PInv progs (init progs ms0 : gst).
   Proof. intros progs t N. reflexivity. Qed.
 
-  Lemma run_pinv : forall progs sched (g : gst), PInv progs g -> PInv progs (run start resume ret cfg sched g).
+  Lemma run_pinv : forall progs sched (g : gst), PInv progs g -> PInv progs (run start resume ret reg cfg sched g).
   Proof.
     intros progs. induction sched as [|t r IH]; intros g H; simpl; [exact H|]. apply IH. apply step_pinv. exact H.
+  Qed.
+
+  (* ---------------------------------------------------------------- what a_ctxs is *)
+  (* the step that starts a top-level call reads the context list from the machine state of that moment
+     (the unlocked read of model_context_map next to the read of ident.current) *)
+  Lemma entry_reads_configuration : forall (g : gst) tid c rest,
+    tid <> 0 -> t_nest (g_th g tid) = [] -> t_cur (g_th g tid) = None -> t_prog (g_th g tid) = c :: rest ->
+    g_ident g <> tid -> ctxs_of reg cfg (g_ms g) c <> [] ->
+    t_cur (g_th (stp tid g) tid) =
+      Some (mkAct c (PAcq (ctxs_of reg cfg (g_ms g) c)) [] (ctxs_of reg cfg (g_ms g) c)) /\
+    (cfg_hier cfg = false -> ctxs_of reg cfg (g_ms g) c = ctxs_spec reg cfg (g_ms g) c).
+  Proof.
+    intros g tid c rest N En Ec Ep Hi Hne. split.
+    - unfold step. apply Nat.eqb_neq in N. rewrite N, En, Ec, Ep. simpl. rewrite upd_same. simpl.
+      unfold enter_call. apply Nat.eqb_neq in Hi. rewrite Hi.
+      destruct (ctxs_of reg cfg (g_ms g) c); [congruence | reflexivity].
+    - intro Hf. apply ctxs_of_flat; assumption.
+  Qed.
+
+  (* ... and no later step changes the call or the list of the activation in progress *)
+  Lemma a_ctxs_stable : forall (g : gst) tid t a, t_cur (g_th g t) = Some a ->
+    match t_cur (g_th (stp tid g) t) with
+    | Some a' => a_call a' = a_call a /\ a_ctxs a' = a_ctxs a
+    | None => True
+    end.
+  Proof.
+    intros g tid t a Ea. unfold step. destruct (Nat.eqb tid 0) eqn:E0; [rewrite Ea; split; reflexivity|].
+    destruct (Nat.eq_dec t tid) as [->|D].
+    2:{ destruct (t_nest (g_th g tid)) as [|top restn].
+        - destruct (t_cur (g_th g tid)) as [b|].
+          + destruct (act_step start resume reg cfg tid b _) as [[s' o] its].
+            destruct o; simpl; rewrite upd_other by exact D; rewrite Ea; split; reflexivity.
+          + destruct (t_prog (g_th g tid)); simpl; [|rewrite upd_other by exact D]; rewrite Ea; split; reflexivity.
+        - destruct (act_step start resume reg cfg tid top _) as [[s' o] its].
+          destruct o; [| |destruct restn|]; simpl; rewrite upd_other by exact D; rewrite Ea; split; reflexivity. }
+    destruct (t_nest (g_th g tid)) as [|top restn].
+    - rewrite Ea. destruct a as [c ph hd acx]. unfold act_step. simpl. destruct ph as [todo|k|r].
+      + destruct todo as [|x todo]; [simpl; rewrite upd_same; simpl; split; reflexivity|].
+        destruct x as [l|]; [destruct (Nat.eqb (g_own g l) 0)|]; simpl; rewrite upd_same; simpl; split; reflexivity.
+      + destruct (resume k (g_ms g)) as [[ms' its] st]. destruct st as [k'|c' k'|r]; simpl;
+          try (rewrite upd_same; simpl; split; reflexivity).
+        destruct hd; simpl; rewrite upd_same; simpl; [exact Logic.I | split; reflexivity].
+      + destruct hd as [|x h]; simpl; [rewrite upd_same; simpl; exact Logic.I|].
+        destruct h; simpl; rewrite upd_same; simpl; [exact Logic.I | split; reflexivity].
+    - destruct (act_step start resume reg cfg tid top _) as [[s' o] its].
+      destruct o; [| |destruct restn|]; simpl; rewrite upd_same; simpl; rewrite Ea; simpl;
+        try (split; reflexivity).
+      unfold deliver. destruct (a_phase a); split; reflexivity.
   Qed.
 
   (* ---------------------------------------------------------------- statements used by Props/C06.v *)
@@ -898,8 +1024,9 @@ Section Proto.
   Variable progs : nat -> list call.
   Notation reach := (reachable progs).
 
-  Lemma c06_invariant : forall sched, Inv (run start resume ret cfg sched (init progs ms0)).
-  Proof. intro sched. apply run_inv. apply init_inv. Qed.
+  Lemma c06_invariant : forall sched, g_bad (run start resume ret reg cfg sched (init progs ms0)) = false ->
+    Inv (run start resume ret reg cfg sched (init progs ms0)).
+  Proof. intros sched Hb. apply run_inv; [apply init_inv | exact Hb]. Qed.
 
   Lemma c06_mutex : forall g t1 t2, reach g -> t1 <> 0 -> t2 <> 0 ->
     (held g t1 <> [] -> held g t2 <> [] -> t1 = t2) /\
@@ -911,9 +1038,9 @@ Section Proto.
     - apply mutex_held; assumption.
     - apply segment_mutex; assumption.
     - intro S. split; [|apply (running_ident g t1 HI N1 S)].
-      destruct (in_segment_running g t1 HI N1 S) as [a [k [Ec [Ep _]]]].
+      destruct (in_segment_running g t1 HI N1 S) as [a [k [Ec [Ep [_ Hg]]]]].
       apply (running_holds_all g t1 a k HI N1 Ec Ep (CLock (L0 cfg))).
-      destruct (ctxs_head cfg WF (a_call a)) as [tl [Hc _]]. rewrite Hc. left. reflexivity.
+      destruct (proj1 Hg) as [tl [Hc _]]. rewrite Hc. left. reflexivity.
   Qed.
 
   Lemma c06_reentrant : forall g tid a k ms' its c' k', reach g -> tid <> 0 ->
@@ -921,7 +1048,7 @@ Section Proto.
     resume k (g_ms g) = (ms', its, SCall c' k') ->
     let g' := stp tid g in
     (forall l, g_own g' l = g_own g l) /\ g_ident g' = g_ident g /\
-    top_act (g_th g' tid) = Some (mkAct c' (PRun (start c')) []) /\
+    top_act (g_th g' tid) = Some (mkAct c' (PRun (start c')) [] []) /\
     blocked g' tid = false /\
     g_log g' = g_log g ++ [EvSeg tid (a_call a) its].
   Proof.
@@ -937,25 +1064,16 @@ Section Proto.
 
   Lemma c06_contexts_held_code : forall g t a k, reach g -> t <> 0 ->
     t_cur (g_th g t) = Some a -> a_phase a = PRun k ->
-    rev (a_held a) = ctxs_of cfg (a_call a) /\
-    forall x, In x (ctxs_of cfg (a_call a)) -> holds g t x.
+    rev (a_held a) = a_ctxs a /\
+    forall x, In x (a_ctxs a) -> holds g t x.
   Proof.
     intros g t a k Hr N Ec Ep. destruct (reachable_inv progs g Hr) as [HI _]. split.
-    - pose proof (proj1 HI t N) as Hs. unfold shape in Hs. rewrite Ec, Ep in Hs. apply Hs.
+    - apply (running_shape g t a k HI N Ec Ep).
     - apply (running_holds_all g t a k HI N Ec Ep).
   Qed.
 
-  Lemma c06_contexts_held : cfg_hier cfg = false -> forall g t a k, reach g -> t <> 0 ->
-    t_cur (g_th g t) = Some a -> a_phase a = PRun k ->
-    rev (a_held a) = ctxs_spec cfg (a_call a) /\
-    forall x, In x (ctxs_spec cfg (a_call a)) -> holds g t x.
-  Proof.
-    intros Hf g t a k Hr N Ec Ep. rewrite <- (ctxs_of_flat cfg Hf).
-    apply (c06_contexts_held_code g t a k Hr N Ec Ep).
-  Qed.
-
   Lemma c06_contexts_order : forall g t a, reach g -> t <> 0 -> t_cur (g_th g t) = Some a ->
-    exists suf, rev (a_held a) ++ suf = ctxs_of cfg (a_call a).
+    exists suf, rev (a_held a) ++ suf = a_ctxs a.
   Proof.
     intros g t a Hr N Ec. destruct (reachable_inv progs g Hr) as [HI _].
     apply (shape_prefix (g_th g t) a (proj1 HI t N) Ec).
@@ -972,7 +1090,7 @@ Section Proto.
     progs t = tcalls t (g_done g) ++ pend (g_th g t) ++ t_prog (g_th g t) /\
     (thread_done (g_th g t) = true -> tcalls t (g_done g) = progs t).
   Proof.
-    intros g t [sched ->] N.
+    intros g t [sched [-> _]] N.
     pose proof (run_pinv progs sched _ (init_pinv progs) t N) as H. split; [exact H|].
     intro Hd. rewrite H. unfold thread_done in Hd. unfold pend.
     destruct (t_prog (g_th _ t)); [|discriminate]. destruct (t_cur (g_th _ t)); [discriminate|].
@@ -992,7 +1110,7 @@ End Proto.
 From M Require Import LockIO.
 
 Lemma macro_go_is_run : forall tab cfg fuel first t (g : cgstate),
-  exists j, macro_go tab cfg fuel first t g = run (c_start tab) (c_resume tab) c_ret cfg (repeat t j) g.
+  exists j, macro_go tab cfg fuel first t g = run (c_start tab) (c_resume tab (cfg_hier cfg)) c_ret c_reg cfg (repeat t j) g.
 Proof.
   intros tab cfg. induction fuel as [|f IH]; intros first t g; simpl.
   - exists 0. reflexivity.
@@ -1004,7 +1122,7 @@ Proof.
 Qed.
 
 Lemma macro_run_is_run : forall tab cfg msched (g : cgstate),
-  exists sched, macro_run tab cfg msched g = run (c_start tab) (c_resume tab) c_ret cfg sched g.
+  exists sched, macro_run tab cfg msched g = run (c_start tab) (c_resume tab (cfg_hier cfg)) c_ret c_reg cfg sched g.
 Proof.
   intros tab cfg. induction msched as [|t r IH]; intro g; simpl.
   - exists []. reflexivity.
